@@ -387,6 +387,15 @@ class World:
             stranger = r[1]
             r = self.call(lambda: parent.el.remove(stranger.el))
             return ('ok', None) if r[0] == 'ok' else ('exc', r[1], 'remove')
+        if 'attached' in op:
+            # fault: ask this element to remove a child that is attached to ANOTHER element
+            other = self.node(op['attached'])
+            if other is None or other.parent is None or other.parent is parent:
+                raise _Skip('no such attached node')
+            r = self.call(lambda: parent.el.remove(other.el))
+            if r[0] == 'ok':
+                return ('ok', 'removed-a-child-of-another-element')
+            return ('exc', r[1], 'remove')
         if 'reuse' in op:
             # fault: remove a child that was detached earlier (removed or replaced out)
             stale = self._detached(op['reuse'], op.get('reuse_doc', op['p'][0]))
@@ -525,7 +534,8 @@ class World:
         node = self._need(op['p'])
         py = op['name']
         val = op['value']
-        r = self.call(lambda: setattr(node.el, py, val))
+        key = py.replace('_', '-') if op.get('spelling') == 'xml' else py      # the parser assigns under the XML name
+        r = self.call(lambda: setattr(node.el, key, val))
         if r[0] == 'ok':
             sn = schema_attr_name(node.name, py) or py.replace('_', '-')
             if val is None:
@@ -541,6 +551,21 @@ class World:
         if r[0] == 'ok':
             return ('ok', jsonable(r[1]))
         return ('exc', r[1], 'attr_get')
+
+    def op_XSD_CHECK_SET(self, op):
+        """el.xsd_check = value (a public property setter)."""
+        node = self._need(op['p'])
+        val = bool(op['value'])
+
+        def f():
+            node.el.xsd_check = val
+        r = self.call(f)
+        if r[0] == 'ok':
+            node.xsd_check = val
+            self._tainted = getattr(self, '_tainted', set())
+            self._tainted.add(node.sid)       # its children were (partly) placed while unchecked
+            return ('ok', None)
+        return ('exc', r[1], 'xsd_check_set')
 
     def op_VALUE_SET(self, op):
         node = self._need(op['p'])
@@ -866,12 +891,26 @@ class World:
         o['ts'] = infork(lambda: self._quiet(lambda: w.verdict(node.el)))
         if node.el.child_container_tree is not None and node.xsd_check:
             o['req'] = infork(lambda: self._quiet(lambda: self._safe_req(node.el)))
+        if deep:
+            o['copy'] = infork(lambda: self._quiet(lambda: self._copy_verdict(node.el)))
         acc = {}
         for name in accept:
             acc[name] = infork(lambda: self._quiet(lambda: self._try_add(node, name)))
         if accept:
             o['accept'] = acc
         return o
+
+    def _copy_verdict(self, el):
+        """What copy.deepcopy(el).to_string() gives (a copy is an observation too)."""
+        try:
+            c = _copy.deepcopy(el)
+        except BaseException as e:
+            return ['copy-raised', type(e).__name__]
+        v = self.verdict(c)
+        if v[0] == 'text':
+            import hashlib as _h
+            return ['text', _h.sha256(v[1].encode('utf-8', 'surrogatepass')).hexdigest()[:12]]
+        return v[:2]
 
     def _safe_req(self, el):
         try:
